@@ -4,7 +4,10 @@ package store
 
 import (
 	"fmt"
+	"strings"
 	"time"
+
+	"github.com/whawty/auth/zzverif/simfs"
 
 	"github.com/whawty/auth/zzverif/simrt"
 )
@@ -151,6 +154,7 @@ func propC01(r *Run) {
 		}
 		hist := []string{}
 		writes := 0
+		faultRun := r.Choose("fault-class", 4) == 0 // fault-free and fault-injecting runs are separate classes
 		for i := 0; i < nops; i++ {
 			if d := clockSteps[r.Choose("clock", len(clockSteps))]; d > 0 {
 				time.Sleep(d)
@@ -162,14 +166,49 @@ func propC01(r *Run) {
 			}
 			d := w.dirs[inst]
 			op := r.Choose("op", 8)
+			// fault-injecting class (decided per run): a single I/O error somewhere before the
+			// rename/unlink that installs the change; a call that then reports failure must have
+			// left the verdicts exactly as they were ("successful and failed ... operations")
+			faulty := faultRun && op <= 5 && r.Choose("inject-fault", 3) == 0
+			if faulty {
+				k := w.fs.NOps + r.Choose("fault-at", 16)
+				pick := r.Choose("fault-errno", 4)
+				installed := false
+				w.fs.Plan = func(seq int, kind, real string) *simfs.Fault {
+					if installed {
+						return nil
+					}
+					if seq >= k {
+						kk := kind
+						if kk == "open" && strings.Contains(real, "/.tmp/") {
+							kk = "create"
+						}
+						if e := errnosFor[kk]; len(e) > 0 {
+							installed = true // one fault only
+							r.Count("fault:" + e[pick%len(e)].Error())
+							return &simfs.Fault{Errno: e[pick%len(e)]}
+						}
+					}
+					if kind == "rename" || kind == "remove" {
+						installed = true // the change is being installed: no fault from here on
+					}
+					return nil
+				}
+			}
 			var err error
 			switch op {
 			case 0, 1: // add
 				pw, admin := GenPassword(r), r.Choose("admin", 2) == 1
 				w.guard("add", func() { err = d.AddUser(u, pw, admin) })
-				want := w.mAdd(u, pw, admin, inst)
+				w.fs.Plan = nil
+				want := false
+				if !(faulty && err != nil) {
+					want = w.mAdd(u, pw, admin, inst)
+				} else if validName(u) && w.model[u] == nil {
+					r.Count("probe:failed-add-under-fault")
+				}
 				r.Logf("#%d t=%d inst%d add %s pw=%s admin=%v -> %v", i, time.Now().Unix(), inst, simrt.Q(u), simrt.Q(pw), admin, err)
-				if (err == nil) != want {
+				if (err == nil) != want && !faulty {
 					r.Fail("result/add", "AddUser(%s) err=%v, model expects success=%v", simrt.Q(u), err, want)
 				}
 				if want {
@@ -181,9 +220,15 @@ func propC01(r *Run) {
 			case 2, 3: // update
 				pw := GenPassword(r)
 				w.guard("update", func() { err = d.UpdateUser(u, pw) })
-				want := w.mUpdate(u, pw, inst)
+				w.fs.Plan = nil
+				want := false
+				if !(faulty && err != nil) {
+					want = w.mUpdate(u, pw, inst)
+				} else {
+					r.Count("probe:failed-update-under-fault")
+				}
 				r.Logf("#%d t=%d inst%d update %s pw=%s -> %v", i, time.Now().Unix(), inst, simrt.Q(u), simrt.Q(pw), err)
-				if (err == nil) != want {
+				if (err == nil) != want && !faulty {
 					r.Fail("result/update", "UpdateUser(%s) err=%v, model expects success=%v", simrt.Q(u), err, want)
 				}
 				if want {
@@ -195,7 +240,12 @@ func propC01(r *Run) {
 			case 4: // set-admin
 				a := r.Choose("admin", 2) == 1
 				w.guard("set-admin", func() { err = d.SetAdmin(u, a) })
+				w.fs.Plan = nil
 				m, ok := w.model[u]
+				if faulty && err != nil {
+					hist = append(hist, fmt.Sprintf("set-admin(%s,%v)=fault", simrt.Q(u), a))
+					break
+				}
 				r.Logf("#%d inst%d set-admin %s %v -> %v", i, inst, simrt.Q(u), a, err)
 				if (err == nil) != ok {
 					r.Fail("result/set-admin", "SetAdmin(%s,%v) err=%v, model user exists=%v", simrt.Q(u), a, err, ok)
@@ -206,8 +256,11 @@ func propC01(r *Run) {
 				hist = append(hist, fmt.Sprintf("set-admin(%s,%v)=%v", simrt.Q(u), a, err == nil))
 			case 5: // remove
 				w.guard("remove", func() { d.RemoveUser(u) })
+				w.fs.Plan = nil
 				r.Logf("#%d inst%d remove %s", i, inst, simrt.Q(u))
-				delete(w.model, u)
+				if _, _, still := w.userFile(u); !(faulty && still) {
+					delete(w.model, u) // remove reports nothing; under an injected fault it may be ineffective
+				}
 				hist = append(hist, fmt.Sprintf("remove(%s)", simrt.Q(u)))
 			case 6: // authenticate with a pool password
 				pw := GenPassword(r)
